@@ -1,4 +1,4 @@
-import Bxh.Proofs.ExecLemmas
+import Bxh.Props.C07
 /-!
 # C02 — IBTPs are accepted in index order, exactly once per ordered service pair
 Theorems about `Bxh.Exec` (model of `InterchainManager.HandleIBTP`, `checkIBTP`, `ProcessIBTP` and
@@ -16,7 +16,8 @@ delivery metadata unchanged: the contract store is untouched and no event is lef
 def C02_rejected_no_effect : Prop :=
   ∀ (env : Env) (l : Led) (s : String) (i : Ibtp) (p : ProofKind) (inv : Option String),
     (applyTx env l (.ibtp s i p) inv).2.rcpt.ok = false →
-      (applyTx env l (.ibtp s i p) inv).1.store = l.store ∧ (applyTx env l (.ibtp s i p) inv).2.events = []
+    ¬ auditHole env (C07.start l) (.ibtp s i p) →
+      (∀ k, (applyTx env l (.ibtp s i p) inv).1.getS k = l.getS k) ∧ (applyTx env l (.ibtp s i p) inv).2.events = []
 
 /-- the fee step of `applyTransaction` never touches contract storage or events when the
 transaction body left the ledger with an empty journal -/
@@ -110,19 +111,19 @@ def cexEnv : Env := { cfg := {}, cache := [], height := 7, txIndex := 0 }
 def cexReq : Ibtp := { frm := some s11, to := some s21, index := 1, typ := .interchain, timeout := 3, group := none }
 
 /-- The receipt is FAILED ("fee"), the contract store is restored by the revert (the record and
-the counters are gone), yet the interchain event survives: the request is announced to `c2` in the
-block's delivery set.  Replayed on the real code by corpus/exec/c02-fee-failed-listed.ops. -/
-theorem C02_counterexample_fee_failed_listed :
+the counters are gone) and nothing is announced.  Before the `fix:` commit "do not process the events of a
+failed transaction" the interchain event survived the revert and the request was listed for `c2`
+(corpus/exec/c02-fee-failed-listed.ops replays it on the real code). -/
+theorem C02_fee_failed_not_listed :
     (applyTx cexEnv cexLed (.ibtp "poor" cexReq .ok) none).2.rcpt = { ok := false, ret := "fee" } ∧
-    (applyTx cexEnv cexLed (.ibtp "poor" cexReq .ok) none).2.events = [.interchain [("c2", false)]] ∧
+    (applyTx cexEnv cexLed (.ibtp "poor" cexReq .ok) none).2.events = [] ∧
     (applyTx cexEnv cexLed (.ibtp "poor" cexReq .ok) none).1.getS (.txRec { frm := s11, to := s21, index := 1 }) = none ∧
     (applyTx cexEnv cexLed (.ibtp "poor" cexReq .ok) none).1.getS (.ic s11) = none := by
   decide
 
-theorem C02_rejected_no_effect_false : ¬ C02_rejected_no_effect := by
-  intro h
-  have := (h cexEnv cexLed "poor" cexReq .ok none (by decide)).2
-  revert this
-  decide
+/-- the full-strength clause holds for every rejected IBTP transaction, whatever rejected it -/
+theorem C02_rejected_no_effect_holds : C02_rejected_no_effect := by
+  intro env l s i p inv hfail hh
+  exact ⟨C07.C07_failed_tx_storage_unchanged env l _ inv hfail hh, C07.C07_failed_tx_not_listed env l _ inv hfail⟩
 
 end Bxh.Props.C02
